@@ -8,6 +8,14 @@ REAL learners (dict_ndl, ndl threading, ndl openmp) on metamorphic pairs drawn
 from one PRNG; values compared as exact rationals inside the exact-dyadic
 domain (2^-30 relative outside); the base run of every pair is also compared
 with the Lean model driver.
+Events contain repeated cues/outcomes (dup in {0, 0.4}); with repeats the laws
+are run under the policies keep and dedup (each law is a theorem about rwLearn
+on the policy-processed events and every transformation used commutes with the
+processing: renamings are injective, removal and permutation act on all
+occurrences); under `error` the model predicts ValueError and the law relates
+nothing.  cue_shuffle permutes the cues AND the outcomes of every event
+(theorems event_perm / events_perm).  affine and alpha_zero also hand dict_ndl
+its initial weights as a DataArray (all four memory layouts).
 """
 from fractions import Fraction
 
@@ -19,12 +27,13 @@ LEARNERS = ['dict_ndl', 'ndl_threading', 'ndl_openmp']
 LAWS = ['drop_other_outcome', 'rename', 'cue_shuffle', 'affine', 'lambda_scale', 'beta2_zero', 'alpha_zero']
 
 
-def with_init(case, learner, cells):
-    """attach initial weights given as {(o,c): 'n/d'} in the form the learner takes"""
+def with_init(case, learner, cells, da=False):
+    """attach initial weights given as {(o,c): 'n/d'} in the form the learner takes; `da`: dict_ndl gets
+    them as a DataArray (the full outcomes x cues rectangle, zeros included) instead of a WeightDict"""
     c = dict(case)
     if not cells:
         return c
-    if learner == 'dict_ndl':
+    if learner == 'dict_ndl' and not da:
         c['init_cells'] = [[o, cu, v] for (o, cu), v in sorted(cells.items())]
     else:
         outs = sorted({o for o, _ in cells})
@@ -33,13 +42,16 @@ def with_init(case, learner, cells):
                         'vals': [cells.get((o, cu), '0/1') for o in outs for cu in cues],
                         # memory layout of the DataArray handed in (derived from the content, so it replays)
                         'layout': ['c', 'f', 'transposed', 'slice'][sum(len(v) for v in cells.values()) % 4]}
+        if learner == 'dict_ndl':
+            c['init_form_dict'] = 'da'
+            c['init_cells'] = [[o, cu, cells.get((o, cu), '0/1')] for o in outs for cu in cues]
     return c
 
 
-def rand_init(r, scale=1):
+def rand_init(r, scale=1, medium=False):
     cells = {}
-    for o in r.sample(gen.OUTS, r.randint(1, 3)):
-        for cu in r.sample(gen.CUES, r.randint(1, 4)):
+    for o in r.sample(gen.OUTS_M if medium else gen.OUTS, r.randint(1, 3)):
+        for cu in r.sample(gen.CUES_M if medium else gen.CUES, r.randint(1, 4)):
             cells[(o, cu)] = '%d/%d' % (r.randint(-8, 8) * scale, r.choice([1, 2, 4, 8]))
     return cells
 
@@ -47,17 +59,27 @@ def rand_init(r, scale=1):
 def build(r, law, learner):
     """returns (list of cases, relation name, extra)"""
     n = r.randint(2, 7)
-    es = gen.events(r, n, dup=0.0, medium=(r.random() < 0.3))
+    medium = r.random() < 0.3
+    es = gen.events(r, n, dup=r.choice([0.0, 0.4]), medium=medium)
     if learner != 'dict_ndl':
         es = gen.file_norm(es)
-    # no event repeats a name, so all three duplicate policies denote the same learner
-    base = dict(gen.params(r), events=es, policy=r.choice(['error', 'dedup', 'keep']), n_jobs=r.choice([1, 2, 3]),
+    # every law is a theorem about rwLearn on the policy-processed events, and each transformation below
+    # commutes with both processings (keep: identity; dedup: the renamings used are injective), so with
+    # repeats inside an event the laws are run under 'keep' and 'dedup'; under 'error' the model predicts
+    # ValueError for a run with repeats (kept rare: the law then relates nothing, the error class is compared).
+    # Without repeats all three policies denote the same learner.
+    if gen.has_dup(es):
+        policy = r.choice(['dedup', 'keep']) if r.random() < 0.9 else 'error'
+    else:
+        policy = r.choice(['error', 'dedup', 'keep'])
+    base = dict(gen.params(r), events=es, policy=policy, n_jobs=r.choice([1, 2, 3]),
                 per_job=r.choice([1, 2, 10]), per_file=r.choice([2, 3, 10000000]))
+    init_da = learner == 'dict_ndl' and r.random() < 0.5     # dict_ndl handed a DataArray (affine, alpha_zero)
     if law == 'drop_other_outcome':
         victims = sorted({o for _, os_ in es for o in os_})
         if len(victims) < 2:
             return None
-        removable = [v for v in victims if all(os_ != [v] for _, os_ in es) and v != '']
+        removable = [v for v in victims if all(set(os_) != {v} for _, os_ in es) and v != '']
         mode = r.choice(['remove', 'rename']) if removable else 'rename'
         if mode == 'remove':
             v = r.choice(removable)
@@ -74,10 +96,12 @@ def build(r, law, learner):
         es2 = [[[f[c] for c in cs], [g[o] for o in os_]] for cs, os_ in es]
         return [base, dict(base, events=es2)], law, {'f': f, 'g': g}
     if law == 'cue_shuffle':
-        es2 = [[r.sample(cs, len(cs)), os_] for cs, os_ in es]
-        return [base, dict(base, events=es2)], law, {}
+        # cues AND outcomes permuted inside every event (theorem event_perm; with repeats: as multisets)
+        es2 = [[r.sample(cs, len(cs)), r.sample(os_, len(os_))] for cs, os_ in es]
+        return [base, dict(base, events=es2)], law, {'outcomes_permuted': any(a[1] != b[1] for a, b in zip(es, es2)),
+                                                     'cues_permuted': any(a[0] != b[0] for a, b in zip(es, es2))}
     if law == 'affine':
-        W, V = rand_init(r), rand_init(r)
+        W, V = rand_init(r, medium=medium), rand_init(r, medium=medium)
         keys = set(W) | set(V)
         S = {}
         for k in keys:
@@ -86,8 +110,8 @@ def build(r, law, learner):
         z = {k: '0/1' for k in keys}
         Wf = {**z, **W}
         Vf = {**z, **V}
-        return ([with_init(base, learner, S), with_init(base, learner, Wf),
-                 with_init(dict(base, **{'lambda': '0'}), learner, Vf)], law, {})
+        return ([with_init(base, learner, S, init_da), with_init(base, learner, Wf, init_da),
+                 with_init(dict(base, **{'lambda': '0'}), learner, Vf, init_da)], law, {})
     if law == 'lambda_scale':
         k = r.choice(['2', '1/2', '3', '-1'])
         lam2 = Fraction(base['lambda']) * Fraction(k)
@@ -100,8 +124,8 @@ def build(r, law, learner):
         extra = [r.sample(gen.CUES, r.randint(1, 3)), [r.choice(gen.OUTS + ['Q'])]]
         return [b, dict(b, events=es + [extra])], law, {'extra': extra}
     if law == 'alpha_zero':
-        W = rand_init(r)
-        return [with_init(dict(base, alpha='0'), learner, W)], law, {'W': W}
+        W = rand_init(r, medium=medium)
+        return [with_init(dict(base, alpha='0'), learner, W, init_da)], law, {'W': W}
     return None
 
 
@@ -133,7 +157,7 @@ def check(law, extra, cells, exact):
         a, b = cells
         for k in set(a) | set(b):
             if not eq(get(a, k), get(b, k)):
-                return 'cue order changed weight %r: %s vs %s' % (k, float(get(a, k)), float(get(b, k)))
+                return 'order of cues/outcomes inside the events changed weight %r: %s vs %s' % (k, float(get(a, k)), float(get(b, k)))
         return None
     if law == 'affine':
         s, w, v = cells
@@ -187,6 +211,7 @@ def run(rep, pool, driver, tier):
     impls = pool.map(tasks)
     models = driver.ask(reqs)
     per_group = {}
+    n_shrunk = 0
     for (gi, ci), impl, model in zip(idx, impls, models):
         per_group.setdefault(gi, []).append((impl, model))
     for gi, (law, learner, (cases, _, extra)) in enumerate(groups):
@@ -194,26 +219,63 @@ def run(rep, pool, driver, tier):
         rep.case({'law': law, 'learner': learner, 'cases': cases}, nontrivial=True, stream=law)
         rep.count('law:' + law)
         rep.count('learner:' + learner)
+        dup = gen.has_dup(cases[0]['events'])
+        rep.count('events_with_repeats:%s' % ('yes' if dup else 'no'))
+        rep.count('policy:%s%s' % (cases[0]['policy'], '/repeats' if dup else ''))
+        if dup:
+            rep.count('law_on_repeats:%s/%s' % (law, cases[0]['policy']))
+            rep.count('learner_on_repeats:%s/%s' % (learner, cases[0]['policy']))
+        if law == 'cue_shuffle':
+            rep.count('cue_shuffle:outcomes_permuted=%s,cues_permuted=%s' % (extra['outcomes_permuted'], extra['cues_permuted']))
+        if law in ('affine', 'alpha_zero'):
+            rep.count('init_form:%s/%s/%s' % (law, learner, 'da' if cases[0].get('init_form_dict') == 'da' or learner != 'dict_ndl'
+                                               else 'dict'))
+            if cases[0].get('init_form_dict') == 'da':
+                rep.count('dict_ndl_da_layout:' + cases[0]['init_lw']['layout'])
         problems = []
+        shrunk_run = None
         for (impl, model), c in zip(runs, cases):
             d = L.compare(impl, model)
             if d is not None:
                 problems.append('run vs Lean model: ' + d)
+                if shrunk_run is None and n_shrunk < 3:
+                    # one run alone already disagrees with the model: shrink that run (events, tokens, configuration)
+                    n_shrunk += 1
+                    small, steps = L.shrink(pool, driver, c, learner, budget=30)
+                    d2, impl2, _ = L.evaluate(pool, driver, small, learner)
+                    if d2 is not None:
+                        shrunk_run = {'what': d2, 'run': small, 'observed': impl2.get('cells', impl2.get('err')),
+                                      'python': L.python_snippet(small, learner), 'shrink_steps': steps}
         if not problems and all('err' not in impl for impl, _ in runs):
             exact = all(m.get('bits', 9999) <= L.EXACT_BITS for _, m in runs)
             rep.count('exact_domain' if exact else 'tolerance_domain')
             d = check(law, extra, [gen.cells_dict(impl['cells']) for impl, _ in runs], exact)
             if d is not None:
                 problems.append('law %s: %s' % (law, d))
+        elif not problems and all(impl.get('err') == model.get('err') for impl, model in runs if 'err' in impl):
+            # every run that raised was predicted to raise that class by the model (repeats under the
+            # 'error' policy): there are no weights for the law to relate
+            rep.count('law_not_applicable:predicted_%s' % sorted({m['err'] for _, m in runs if 'err' in m})[0])
         elif not problems:
             problems.append('a run raised: %r' % [impl.get('err') for impl, _ in runs])
+        law_relation = None
+        if problems and all('err' not in impl and 'err' not in m for impl, m in runs):
+            # a run already disagrees with the model; also say whether the law, as a relation between the
+            # real runs alone (no oracle), fails on this group
+            law_relation = check(law, extra, [gen.cells_dict(impl['cells']) for impl, _ in runs],
+                                 all(m.get('bits', 9999) <= L.EXACT_BITS for _, m in runs)) or 'holds'
+            rep.count('law_relation_on_failing_group:%s/%s' % (law, 'holds' if law_relation == 'holds' else 'fails'))
         if problems:
-            rep.violation({'what': problems[0], 'law': law, 'learner': learner,
-                           'input': {'runs': [{k: v for k, v in c.items()} for c in cases], 'extra': extra},
+            rep.violation({'what': problems[0], 'law': law, 'learner': learner, 'shrunk_single_run': shrunk_run,
+                           'law_relation_between_the_runs': law_relation,
+                           'input': {'runs': [{k: v for k, v in c.items()} for c in cases],
+                                     # (the initial weights W of alpha_zero are keyed by (outcome, cue): not a JSON key)
+                                     'extra': {k: ([[o, cu, x] for (o, cu), x in sorted(v.items())] if k == 'W' else v)
+                                               for k, v in extra.items()}},
                            'observed': [impl.get('cells', impl.get('err')) for impl, _ in runs],
                            'expected': 'relation of PyndlProps/C13.lean theorem for this law',
                            'python': '\n# ---- next run ----\n'.join(L.python_snippet(c, learner) for c in cases),
                            'theorem_or_stream': 'C13.%s on real %s runs' % (law, learner)})
-        else:
-            rep.sample({'law': law, 'learner': learner, 'events': cases[0]['events'][:4],
+        elif 'err' not in runs[0][0]:
+            rep.sample({'law': law, 'learner': learner, 'events': cases[0]['events'][:4], 'policy': cases[0]['policy'],
                         'cells_run0': runs[0][0]['cells'][:4]})
